@@ -326,6 +326,7 @@ def run(ctx):
     walk_rule(ctx, syn)
     from props.c15 import workdir_rule
     workdir_rule(ctx, syn, rid="C05.WORKDIR")   # the @include of a stand-off file is written through the same helper
+    ext_rule(ctx)
     from props.c11 import name_rule
     name_rule(ctx, rid="C05.NAME")   # to_file(name) / from_file(name): the manifest or store file is written under the name given
     mir_rules(ctx)
@@ -524,3 +525,30 @@ def mir_rules(ctx):
             if lens:
                 ctx.report(r_gap, "offset-by-length:" + bid.split("::")[1].split("<")[0], "%s resizes the store to a length that also derives from %s: an item written as !X<n> no longer lands on handle n when the store was not empty before (sub-store read first), handles and temporary ids drift on every save/load cycle" % (bid, lens), b.file, t.get("line"))
     ctx.floor(r_gap, m, 2, "gap re-creations in readers")
+
+
+# ---------------------------------------------------------------------- EXT
+def ext_rule(ctx, rid="C05.EXT"):
+    """`Path::ends_with(".json")` compares whole path components: it is true for a file called `.json`, never for
+    `r.json`.  A writer that picks the format of a stand-off file that way always takes the other branch (a STAM JSON
+    resource file is written as plain text and the store that includes it does not load again).  Type-resolved over
+    the whole crate: every call of std::path::Path::ends_with / starts_with with a literal that is an extension."""
+    import mirq
+    r = ctx.rule(rid, "no std::path::Path::ends_with is called with a file extension (a literal that starts with a dot and names no directory): the comparison is by path component and can never be true for a file with that extension")
+    prog = mirq.Program(ctx.facts.mir())
+    n = 0
+    for bid, b in sorted(prog.bodies.items()):
+        if b.d.get("derived"):
+            continue
+        for bi, t in b.calls():
+            decl = mirq.callee_of(t)[0] or ""
+            if decl in ("std::path::Path::ends_with", "std::path::PathBuf::ends_with") and len(t.get("args", [])) == 2:
+                n += 1
+                k = (t["args"][1].get("k") or {}) if isinstance(t["args"][1], dict) else {}
+                lit = k.get("s")
+                r.hit("%s#%d" % (bid, n), sample={"function": bid, "argument": lit or b.key_of_operand(t["args"][1])})
+                if isinstance(lit, str) and re.fullmatch(r'"\.[A-Za-z0-9.]+"', lit):
+                    ctx.report(r, "%s|%s" % (mirq.short_fn(bid), lit.strip('"')), "%s tests a path with Path::ends_with(%s): that compares the last path component as a whole, so it is false for every file that merely has this extension - the branch behind it never runs (a stand-off file of that format is written in the other format)" % (bid, lit), b.file, t.get("line"))
+    # the rule has a positive example on every run: the text comparisons on file names (str::ends_with) that it must not confuse with this
+    strs = sum(1 for bid, b in prog.bodies.items() for bi, t in b.calls() if (mirq.callee_of(t)[0] or "").endswith("str::<impl str>::ends_with") or (mirq.callee_of(t)[0] or "") == "core::str::<impl str>::ends_with")
+    r.notes.append("Path::ends_with calls in the crate: %d; str::ends_with calls (not concerned): %d" % (n, strs))
